@@ -660,7 +660,7 @@ def run(ck: core.Check):
             else:
                 ok = o.get("err") == real[1]
                 nst["errors_agree"] += int(ok)
-            if "graph" in o and not o.get("trace_ok"):
+            if "graph" in o and not (o.get("trace_ok") and o.get("names_in_scope")):
                 nst["trace_bad"] += 1
                 ok = False
             if not ok:
